@@ -1785,6 +1785,15 @@ selftest(
          "            if sub.base is prev:\n                continue\n"
          "            idx.indexed_val_set(prev, sub)"),
     Twin('twin-wb-guard-or-none', CG, 'if sub.base is not prev:', 'if sub.base is None or sub.base is not prev:'),
+    # ---- resolve (pre-fix shape is today's tree; the mutant below becomes applicable once the guard exists)
+    Mutant('resolve-guard-removed', CG, 'if val is not None and (self._first_pass or node_meta.val is None):',
+           'if val is not None:', 'C07.resolve'),
+    Twin('twin-resolve-guarded', CG, "                if val is not None:\n                    if node[1].startswith('_auto_ivc.'):",
+         "                if val is not None and (self._first_pass or node_meta.val is None):\n"
+         "                    if node[1].startswith('_auto_ivc.'):"),
+    Twin('twin-resolve-guarded-outer', CG, "            if not ambig_val:\n                val = self.get_val_from_children(",
+         "            if not ambig_val and (node_meta.val is None or self._first_pass):\n"
+         "                val = self.get_val_from_children("),
     # ---- twins
     Twin('twin-units-flip-compare', CG, '            if src_units != units:', '            if units != src_units:'),
     Twin('twin-units-commuted-formula', CG, 'return (val + offset) * scale', 'return scale * (offset + val)', nth=1),
